@@ -142,6 +142,23 @@ func (c *Command) UnmarshalXML(d *xml.Decoder, start xml.StartElement) error {
 				f := Form{}
 				err = d.DecodeElement(&f, &tt)
 				c.CommandElements = append(c.CommandElements, &f)
+			case "bad-action", "bad-locale", "bad-payload", "bad-sessionid", "malformed-action", "session-expired":
+				// the flag children that Command marshals from its pointer fields
+				flag := map[string]**struct{}{"bad-action": &c.BadAction, "bad-locale": &c.BadLocale,
+					"bad-payload": &c.BadPayload, "bad-sessionid": &c.BadSessionId,
+					"malformed-action": &c.MalformedAction, "session-expired": &c.SessionExpired}[tt.Name.Local]
+				*flag = &struct{}{}
+				err = d.Skip()
+			case "set":
+				if tt.Name.Space != "http://jabber.org/protocol/rsm" {
+					n := Node{}
+					err = d.DecodeElement(&n, &tt)
+					c.CommandElements = append(c.CommandElements, &n)
+					break
+				}
+				rs := ResultSet{}
+				err = d.DecodeElement(&rs, &tt)
+				c.ResultSet = &rs
 			default:
 				n := Node{}
 				err = d.DecodeElement(&n, &tt)
